@@ -45,6 +45,7 @@ EXPLANATION = (
 ASSUMPTIONS = ["scipy.interpolate.interp1d interpolates linearly and extrapolates linearly with fill_value='extrapolate'",
                "np.sum / sum are linear"]
 TECHNIQUE = "normal forms with limit-swap substitution and symbolic differentiation; guarded comparison of sibling arms; parsing of library data files"
+EXPLANATION += (' ' + '(R19.10) where a method of the property / std-type classes or a function of properties_toolbox tests its arguments with isinstance(.., pd.Series), values that may still be Series of two different arguments never meet in an arithmetic operation or comparison: each is converted (.values, np.array, to_numpy) first. Decided by a small abstract interpretation of the normal-form terms (conditional values are followed with the isinstance fact of their arm).')
 
 UP, LO = ("sym", "upper_limit_arg"), ("sym", "lower_limit_arg")
 
